@@ -67,7 +67,16 @@ def struct_members(ctx, ci):
                 call = b.factory_call
     if call is None:
         return None
-    return [_member_desc(ctx, a, ci.module) for a in call.args]
+    args = []
+    for a in call.args:
+        if isinstance(a, ast.Starred) and isinstance(a.value, ast.Name):
+            # `*_MEMBERS`: a module-level tuple / list display assigned once stands for its elements
+            sym = ctx.model.resolve(ci.module.name, a.value.id)
+            if sym is not None and sym.kind == "assign" and len(sym.values) == 1 and isinstance(sym.values[0], (ast.Tuple, ast.List)):
+                args.extend(sym.values[0].elts)
+                continue
+        args.append(a)
+    return [_member_desc(ctx, a, ci.module) for a in args]
 
 
 def _norm(members):
